@@ -230,6 +230,11 @@ def run_batch(case, cache=None):
     if case.get('warm'):
         params['warm'] = case['warm']
         eff_limit = max(eff_limit, case['warm'])      # warm-up steps happened before the limit was looked at
+    if case.get('source'):
+        # parameter values handed over as a one-shot iterable: each value is still run exactly once
+        vals = list(params['a'])
+        params['a'] = {'generator': (v for v in vals), 'map': map(int, vals), 'iter': iter(vals),
+                       'range': range(vals[0], vals[-1] + 1), 'tuple': tuple(vals)}[case['source']]
     if case.get('style'):
         params['style'] = case['style']
     if case.get('nocoll') is not None:
@@ -323,6 +328,13 @@ def extra_cases():
         for procs, oc in ((1, None), (2, [[[0], [1]], [1, 0]])):
             yield {'leg': 'warm', 'grid': '2x1', 'reps': 1, 'life': life, 'limit': limit, 'collectors': 'c0', 'warm': 3,
                    'procs': procs, 'outcome': oc}
+    # parameter values given as one-shot iterables
+    for src in ('generator', 'map', 'iter', 'range', 'tuple'):
+        for gname in ('2x1', '3x1', '2x2'):
+            for reps in (1, 2):
+                for procs, oc in ((1, None), (2, None)):
+                    yield {'leg': 'sources', 'grid': gname, 'reps': reps, 'life': 2, 'limit': None, 'collectors': 'c0',
+                           'procs': procs, 'outcome': oc, 'source': src}
     # models that finish by their own criterion (is_running overridden) / whose clock jumps ahead (event-driven)
     for style in ('own_done', 'jump'):
         for life, limit in ((3, None), (3, 2), (3, 3), (3, 7), (6, 2), (6, 3), (6, 4), (6, 5), (2, None), (1, 3), (9, 4)):
